@@ -48,6 +48,10 @@ struct Writer {
     delivered_bytes: Rc<RefCell<usize>>,
 }
 
+const STALL: usize = 1000;
+const STALL_POLLS: usize = 40;
+const STALL_MS: u64 = 15;
+
 fn run_schedule(content: &[u8], chunk_lens: &[usize], cap: usize, pre: usize, stutter_at: Option<usize>) -> Result<Obs, PanicRec> {
     let tmp = sut::TempFiles::new(&[b""]);
     let path = tmp.paths[0].clone();
@@ -85,6 +89,14 @@ fn run_schedule(content: &[u8], chunk_lens: &[usize], cap: usize, pre: usize, st
         }
         if w.stutter_at == Some(n) {
             return Action::Continue;
+        }
+        // stutter_at = STALL + n: the writer stalls at poll n for STALL_POLLS further polls and STALL_POLLS * STALL_MS
+        // milliseconds (the reader keeps polling meanwhile)
+        if let Some(v) = w.stutter_at {
+            if v >= STALL && n >= v - STALL && n < v - STALL + STALL_POLLS {
+                std::thread::sleep(std::time::Duration::from_millis(STALL_MS));
+                return Action::Continue;
+            }
         }
         if w.next < w.chunks.len() {
             let c = w.chunks[w.next].clone();
@@ -259,6 +271,38 @@ pub fn run(ctx: &Ctx) -> i32 {
             }
         }
     });
+    // a writer that stalls (40 polls, 600 ms) at every retry point: all cuts of two contents
+    {
+        let stall_contents: Vec<&[u8]> = ctx.tier.pick(vec![&b"ab\ncd\n"[..]], vec![&b"ab\ncd\n"[..], "\u{e9}x\ny\n".as_bytes(), &b"a\r\nbc"[..]]);
+        let mut sitems: Vec<(usize, u64, usize)> = Vec::new();
+        for (ci, c) in stall_contents.iter().enumerate() {
+            for m in 0..(1u64 << (c.len() - 1)) {
+                let nchunks = cut_from_mask(c.len(), m).len();
+                for at in 0..nchunks.min(ctx.tier.pick(3, 6)) {
+                    sitems.push((ci, m, at));
+                }
+            }
+        }
+        let sdesc = |idx: u64| { let (ci, m, at) = sitems[idx as usize]; json!({"hang": true, "content_hex": hex(stall_contents[ci]), "chunks": cut_from_mask(stall_contents[ci].len(), m), "stall_at": at}) };
+        let (sdone, scomplete) = par_for_watch(ctx, sitems.len() as u64, 1, &sdesc, |idx| {
+            let (ci, m, at) = sitems[idx as usize];
+            let content = stall_contents[ci];
+            let chunks = cut_from_mask(content.len(), m);
+            let (fs, obs) = judge(content, &chunks, 8192, 0, Some(STALL + at));
+            col.eval(1);
+            col.traces_validated.fetch_add(1, std::sync::atomic::Ordering::Relaxed);
+            if let Some(o) = &obs {
+                col.transitions.fetch_add(o.polls as u64, std::sync::atomic::Ordering::Relaxed);
+                if o.polls_inside_line > 0 {
+                    col.nontrivial(h64(&("stall", ci, m, at)));
+                }
+            }
+            for f in fs {
+                col.fail(f);
+            }
+        });
+        col.layer("writer stalls for 40 polls / 600 ms at a retry point (all cuts)", sdone, scomplete, json!({"contents": stall_contents.iter().map(|c| String::from_utf8_lossy(c).to_string()).collect::<Vec<_>>(), "stall_polls": STALL_POLLS, "stall_ms": STALL_MS}));
+    }
     // long contents: line ends and append boundaries around multiples of the reader's buffer size
     {
         let mut nlong = 0u64;
